@@ -246,6 +246,28 @@ def _check(case, params, X, n, p, msl, mil, Xtrain, Xpred, history):
     return {"nontrivial": bool(events), "classes": classes}
 
 
+# ------------------------------------------------------------------ default settings on realistic series
+
+
+def default_cells(tier):
+    """The detector with its DEFAULT hyper-parameters (optionally one of them changed) on realistic series of 100-400 samples
+    (strategies.data.realistic_series; deterministic function of the stored seed)."""
+    base = {"anomaly_score": None, "threshold_scale": 2.0, "level": 1e-8, "min_segment_length": 5, "max_interval_length": 1000, "growth_factor": 1.5}
+    variants = ({}, {"max_interval_length": 100}, {"threshold_scale": None, "level": 0.01, "max_interval_length": 100}, {"growth_factor": 2.0},
+                {"threshold_scale": 1.0, "max_interval_length": 60})
+    for seed in range(8 if tier == "quick" else 16):
+        for n in ((60, 110) if tier == "quick" else (60, 110, 160, 220)):
+            for v in variants[: 2 if tier == "quick" else 5]:
+                yield {"seed": 24000 + seed, "n": n + seed, "p": 1 + seed % 2, "params": dict(base, **v)}
+
+
+def check_default(case):
+    X, kind = D.realistic_series(case["seed"], case["n"], case["p"])
+    info = check({"params": case["params"], "X": X, "scale2": 1.5, "n_train": None, "history": None})
+    info["classes"] = list(info["classes"]) + [f"data={kind}"]
+    return info
+
+
 # ------------------------------------------------------------------ very many anomalies
 
 
@@ -284,6 +306,11 @@ FACETS = [
                 "data in small / large units and integer Table/Function local scores (ties; long series 150-240 with a function score); detector optionally fitted on other data (shorter / longer / the same buffer refilled afterwards) and optionally with a past (scorer pre-fitted on wider data; earlier predict on the caller's array / frame, then refilled in place); "
                 "non-trivial = >= 1 anomaly"),
           n_quick=480, n_thorough=6000, shards_quick=16, shards_thorough=16),
+    Facet(name="default_settings", kind="enumerate", enumerate=default_cells, check=check_default, exhaustive=True, time_limit=900,
+          rule=("CircularBinarySegmentation with its default hyper-parameters (L2 local score, msl 5, max_interval_length 1000, growth 1.5, scale 2; "
+                "variants: max_interval_length 100 / 60, tuned threshold, growth 2, scale 1) on realistic series of 60-220 samples (seeded); same "
+                "per-candidate and greedy models; 32 cells (thorough: 320), non-trivial = >= 1 anomaly"),
+          shards_quick=16, shards_thorough=16, max_samples=1),
     Facet(name="many_anomalies", kind="enumerate", enumerate=many_cells, check=check_many, exhaustive=True, time_limit=600,
           rule=("series of 3902 / 5000 samples (thorough: up to 12000) with a decaying burst every 3-5 samples: more than 1000 reported "
                 "anomalies, i.e. > 1000 rounds of the greedy selection; same per-candidate and greedy models; non-trivial = >= 1000 anomalies"),
